@@ -215,6 +215,11 @@ class ORToolsSolver(BaseSolver):
             0, instance.total_duration, "makespan"
         )
         end_times = [end for _, end in self._operations_start.values()]
+        if not end_times:
+            # An instance without operations: the empty schedule is optimal.
+            self.model.Add(self._makespan == 0)
+            self.model.Minimize(self._makespan)
+            return
         self.model.AddMaxEquality(self._makespan, end_times)
         self.model.Minimize(self._makespan)
 
